@@ -278,6 +278,64 @@ func pickSome(r *vlib.Rand, pool []string, lo, hi int) []string {
 	return out
 }
 
+// c10Shared generates a named matcher meant to be referenced by several routes:
+// 3-7 entries of one or two kinds (lists long enough to have spare capacity
+// when they are merged with a route's own criteria).
+func c10Shared(r *vlib.Rand, name string) (string, refRoute) {
+	var b strings.Builder
+	var part refRoute
+	kinds := pickSome(r, []string{"remote_ip", "method", "host", "header", "header_exists", "query_exists"}, 1, 2)
+	for _, k := range kinds {
+		n := r.Range(3, 7)
+		switch k {
+		case "remote_ip":
+			for _, ip := range pickSome(r, c10IPs, n, n) {
+				part.RemoteIPs = append(part.RemoteIPs, ip)
+				fmt.Fprintf(&b, "  remote_ip %q\n", ip)
+			}
+		case "method":
+			for _, m := range pickSome(r, []string{"POST", "PUT", "GET", "PATCH", "DELETE"}, minInt(n, 4), minInt(n, 4)) {
+				part.Methods = append(part.Methods, m)
+				fmt.Fprintf(&b, "  method %s\n", m)
+			}
+		case "host":
+			for _, h := range pickSome(r, c10Hosts, minInt(n, len(c10Hosts)), minInt(n, len(c10Hosts))) {
+				part.Hosts = append(part.Hosts, h)
+				fmt.Fprintf(&b, "  host %q\n", h)
+			}
+		case "header":
+			for i := 0; i < minInt(n, 3); i++ {
+				k, v := fmt.Sprintf("X-Shared-%s-%d", name[1:], i), vlib.Pick(r, c10Vals)
+				part.Headers = append(part.Headers, kv{k, v})
+				fmt.Fprintf(&b, "  header %q %q\n", k, v)
+			}
+		case "header_exists":
+			for i := 0; i < minInt(n, 3); i++ {
+				k := fmt.Sprintf("X-Has-%s-%d", name[1:], i)
+				part.HeaderExists = append(part.HeaderExists, k)
+				fmt.Fprintf(&b, "  header_exists %q\n", k)
+			}
+		case "query_exists":
+			for i := 0; i < minInt(n, 3); i++ {
+				k := fmt.Sprintf("qs%s%d", name[1:], i)
+				part.QueryExists = append(part.QueryExists, k)
+				fmt.Fprintf(&b, "  query_exists %q\n", k)
+			}
+		}
+	}
+	return fmt.Sprintf("%s {\n%s}\n", name, b.String()), part
+}
+
+func (rt *refRoute) merge(p refRoute) {
+	rt.Methods = append(rt.Methods, p.Methods...)
+	rt.Hosts = append(rt.Hosts, p.Hosts...)
+	rt.Headers = append(rt.Headers, p.Headers...)
+	rt.HeaderExists = append(rt.HeaderExists, p.HeaderExists...)
+	rt.Query = append(rt.Query, p.Query...)
+	rt.QueryExists = append(rt.QueryExists, p.QueryExists...)
+	rt.RemoteIPs = append(rt.RemoteIPs, p.RemoteIPs...)
+}
+
 // c10Config generates a configuration and its reference model.
 func c10Config(r *vlib.Rand) (string, []refRoute) {
 	var b strings.Builder
@@ -289,6 +347,20 @@ func c10Config(r *vlib.Rand) (string, []refRoute) {
 	var routes []refRoute
 	var matchers strings.Builder
 	var body strings.Builder
+	// named matchers shared between routes
+	type shared struct {
+		name string
+		part refRoute
+	}
+	var shareds []shared
+	if r.Chance(0.5) {
+		for k := 0; k < r.Range(1, 2); k++ {
+			name := fmt.Sprintf("@s%d", k)
+			txt, part := c10Shared(r, name)
+			matchers.WriteString(txt)
+			shareds = append(shareds, shared{name, part})
+		}
+	}
 	for i := 0; i < n; i++ {
 		rt := refRoute{Path: paths[i], Channel: "inbound"}
 		switch r.Intn(10) {
@@ -300,14 +372,55 @@ func c10Config(r *vlib.Rand) (string, []refRoute) {
 		var inner strings.Builder
 		inner.WriteString("  queue { backend memory }\n")
 		if rt.Channel == "inbound" {
+			// references to shared matchers before and/or after the route's own criteria
+			var refsBefore, refsAfter []string
+			for _, sh := range shareds {
+				if r.Chance(0.6) {
+					if r.Bool() {
+						refsBefore = append(refsBefore, sh.name)
+					} else {
+						refsAfter = append(refsAfter, sh.name)
+					}
+				}
+			}
+			mergeRefs := func(names []string) {
+				for _, nm := range names {
+					for _, sh := range shareds {
+						if sh.name == nm {
+							rt.merge(sh.part)
+						}
+					}
+				}
+			}
+			mergeRefs(refsBefore)
 			m := c10Match(r, &rt)
+			mergeRefs(refsAfter)
+			own := ""
 			if m != "" {
 				if r.Chance(0.3) {
-					name := fmt.Sprintf("@m%d", i)
-					fmt.Fprintf(&matchers, "%s {\n%s}\n", name, m)
-					fmt.Fprintf(&inner, "  match %s\n", name)
+					own = fmt.Sprintf("@m%d", i)
+					fmt.Fprintf(&matchers, "%s {\n%s}\n", own, m)
 				} else {
-					fmt.Fprintf(&inner, "  match {\n%s  }\n", m)
+					own = "inline"
+				}
+			}
+			switch {
+			case own == "inline":
+				if len(refsBefore) > 0 {
+					fmt.Fprintf(&inner, "  match %s\n", strings.Join(refsBefore, " "))
+				}
+				fmt.Fprintf(&inner, "  match {\n%s  }\n", m)
+				if len(refsAfter) > 0 {
+					fmt.Fprintf(&inner, "  match %s\n", strings.Join(refsAfter, " "))
+				}
+			default:
+				names := append([]string{}, refsBefore...)
+				if own != "" {
+					names = append(names, own)
+				}
+				names = append(names, refsAfter...)
+				if len(names) > 0 {
+					fmt.Fprintf(&inner, "  match %s\n", strings.Join(names, " "))
 				}
 			}
 		}
